@@ -21,7 +21,11 @@ def theta_grid(rng, n_random):
     g += [rng.uniform(-100, 100) for _ in range(n_random)]
     return g
 
+
+from shared import redefinition_check
+
 def check_C07(run: Run):
+    redefinition_check(run, True)
     rng = random.Random(run.seed * 53 + 59)
     import opensquirrel.default_gates as dg
     from opensquirrel.default_gates import default_gate_set, default_gate_aliases
@@ -209,6 +213,11 @@ def check_C08(run: Run):
         B = R.circ_matrix(c["c"]["stmts"], c["c"]["nq"])
         d = float(np.abs(A - B).max())
         if d > 1e-8: run.violation(f"circuit matrix differs from the product of its gates in program order by {d:.3g}", c)
+        am = r.get("_after_map")
+        if am is not None:
+            B2 = R.circ_matrix(am["c"]["stmts"], am["c"]["nq"])
+            d2 = float(np.abs(am["m"] - B2).max())
+            if d2 > 1e-8: run.violation(f"after relabelling the circuit in place, a second get_circuit_matrix differs from the product of its current gates by {d2:.3g}", c)
 
 # ----------------------------------------------------------------------------------------- C09
 def render_program(rng, g: G.Gen):
@@ -366,6 +375,9 @@ def check_C09(run: Run):
             if (m["err"] is None) != (r["err"] is None): run.mismatch(f"malformed program: implementation {r['err']} vs model {m['err']}", {"text": text})
 
 # ----------------------------------------------------------------------------------------- C13
+class Circuit_ir_holder:
+    def __init__(self, b): self.ir = b.ir
+
 def check_C13(run: Run):
     rng = random.Random(run.seed * 79 + 83); g = G.Gen(rng)
     names = list(GATE_SIG) + ["measure", "measure_z", "reset", "Hadamard", "Identity", "Foo", "cnot", "h", "", "to_circuit2"]
@@ -455,6 +467,29 @@ def check_C13(run: Run):
             for j in range(i + 1, len(ids)):
                 if ids[i] & ids[j]: run.violation("two snapshots share a statement object", {"log": ops_log})
         run.count({"snap": ops_log, "i": _}, tag="snapshots")
+    from shared import snapshot_independence
+    snapshot_independence(run)
+    # gates on three or more qubits (user-defined): a repeated operand in any two positions is refused
+    from opensquirrel.ir import named_gate as _ng13, ControlledGate, MatrixGate, QubitLike
+    from opensquirrel.default_gates import default_gate_set as _dgs13
+    @_ng13
+    def CCZ13(c1: QubitLike, c2: QubitLike, t: QubitLike) -> ControlledGate:
+        return ControlledGate(c1, ControlledGate(c2, dg.Z(t)))
+    @_ng13
+    def M3g13(a: QubitLike, b_: QubitLike, c: QubitLike) -> MatrixGate:
+        return MatrixGate(np.eye(8, dtype=complex)[[0, 1, 2, 3, 4, 5, 7, 6]], [a, b_, c])
+    for gname in ("CCZ13", "M3g13"):
+        for ops_ in itertools.product(range(3), repeat=3):
+            bb = CircuitBuilder(3, gate_set=[*_dgs13, CCZ13, M3g13])
+            run.count({"three-qubit user gate": gname, "ops": list(ops_)}, tag="user3")
+            try:
+                getattr(bb, gname)(*ops_); accepted = True
+            except Exception:
+                accepted = False
+            distinct = len(set(ops_)) == 3
+            if accepted and not distinct: run.violation(f"user gate {gname}{ops_}: a repeated qubit operand was accepted", {"gate": gname, "ops": list(ops_)})
+            if distinct and not accepted: run.violation(f"user gate {gname}{ops_} on distinct qubits was refused", {"gate": gname, "ops": list(ops_)})
+            if accepted and not wire_wf(W.w_circuit(bb.to_circuit())): run.violation(f"user gate {gname}{ops_}: the builder holds an ill-formed circuit", {"gate": gname, "ops": list(ops_)})
     # --- the same index / arity violations in cQASM source
     for text in MALFORMED:
         r = O.impl_parse(text)
@@ -581,6 +616,9 @@ def gate_pool(g: G.Gen, rng):
     cn_rev = np.array([[1, 0, 0, 0], [0, 0, 0, 1], [0, 0, 1, 0], [0, 1, 0, 0]], complex)
     add("CNOT01", dg.CNOT(0, 1), Mx(cn, [0, 1]), Mx(cn_rev, [1, 0]))
     add("CNOT10", dg.CNOT(1, 0), Mx(cn, [1, 0]))
+    # a multiple of a gate's matrix is not that gate (only a factor of modulus one is a global phase)
+    add("CNOT01-scaled", Mx(2 * cn, [0, 1]), Mx(0.5 * cn, [0, 1]), Mx(1000 * cn, [0, 1]), Mx(3j * cn, [0, 1]), Mx((1 + 1e-3) * cn, [0, 1]))
+    add("CNOT01", Mx(np.exp(0.7j) * cn, [0, 1]), Mx(-cn, [0, 1]))
     add("CZ-relphase", C(0, B(1, (0, 0, 1), pi, 0.0)), C(0, B(1, (0, 0, 1), pi, pi / 2 + 1e-3)))
     add("CZ02", dg.CZ(0, 2), Mx(cz, [2, 0]))
     add("CNOT01-near", C(0, B(1, (1, 0, 0), pi - 1e-4, pi / 2)), C(0, B(1, (1, 0, 0), pi - 1e-9, pi / 2)),
@@ -626,12 +664,14 @@ def check_C16(run: Run):
         A = R.gate_matrix(R.rename_gate(c["a"], lambda q: qs.index(q)), len(qs)); B = R.gate_matrix(R.rename_gate(c["b"], lambda q: qs.index(q)), len(qs))
         both_bsr = c["a"]["k"] == "bsr" and c["b"]["k"] == "bsr"
         d = float(np.abs(A - B).max()) if both_bsr else R.phase_dist(A, B)
-        if r["v"] and d > 3e-5: run.violation(f"two gates with different operations compare equal (distance {d:.3g}; {c['la']} vs {c['lb']})", c)
+        if r["v"] and d > 3e-5: run.violation(f"two gates with different operations compare equal (distance {d:.3g}; {c['la']} vs {c['lb']})", c,
+                                              fkey="C16-scalar-multiple" if ("scaled" in c["la"] or "scaled" in c["lb"]) else None)
         if (not r["v"]) and d < 1e-9: run.violation(f"two representations of the same operation compare unequal ({c['la']} vs {c['lb']})", c)
+    scaled = {json.dumps(gt, sort_keys=True) for lab, gt in pool if "scaled" in lab}
     for (a, b), v in results.items():
         if (b, a) in results and results[(b, a)] != v and "near" not in a:
             d = json.loads(a), json.loads(b)
-            run.violation("gate equality is not symmetric", {"a": d[0], "b": d[1]})
+            run.violation("gate equality is not symmetric", {"a": d[0], "b": d[1]}, fkey="C16-scalar-multiple" if (a in scaled or b in scaled) else None)
     for _, gt in pool:
         if O.impl_gateeq(gt, gt)["v"] is not True: run.violation("gate equality is not reflexive", {"a": gt})
     # equality with an object of another type is False, never an exception (gates, statements, IR, circuit, mapping, registers)
@@ -728,6 +768,34 @@ def check_C18(run: Run):
         touched = sorted({q for e in exp for q in e})
         if sorted(r["v"]["nodes"]) != touched: run.violation(f"nodes {r['v']['nodes']} include qubits without two-qubit interaction (expected {touched})", c)
 
+    # the graph of a circuit that was relabelled in place: nodes are the qubits as they are now, usable with fresh Qubit objects
+    from opensquirrel.mapper.utils import make_interaction_graph
+    from opensquirrel.ir import Qubit
+    for _ in range(run.n(30, 300)):
+        n = rng.randint(2, 6)
+        c0 = g.circuit(n=n, kinds="named", allow_band=False, length=rng.randint(2, 10))
+        p = list(range(n)); rng.shuffle(p)
+        if p == sorted(p): p = p[1:] + p[:1]
+        r0 = O.impl_map(p, c0)
+        run.count({"mapped-graph": c0, "p": p}, tag="after-map")
+        if r0["err"] is not None: continue
+        circ = r0["_circ"]
+        if rng.random() < 0.5:
+            circ.replace(dg.CZ, lambda a_, b_: [dg.H(b_), dg.CNOT(a_, b_), dg.H(b_)])
+        wc = W.w_circuit(circ)
+        exp = sorted({tuple(sorted(R.gate_ops(s_["g"]))) for s_ in wc["stmts"] if s_["k"] == "gate" and len(R.gate_ops(s_["g"])) == 2})
+        try:
+            gr = make_interaction_graph(circ.ir)
+            got = sorted({(min(a.index, b.index), max(a.index, b.index)) for a, b in gr.edges})
+            if got != exp: run.violation(f"after map: edges {got}, expected {exp}", {"c": c0, "p": p}); continue
+            if len(gr.nodes) != len({q for e in exp for q in e}): run.violation(f"after map: {len(gr.nodes)} nodes for {len({q for e in exp for q in e})} interacting qubits (a qubit occurs as several nodes)", {"c": c0, "p": p}); continue
+            if len(gr.edges) != len(exp): run.violation("after map: a pair occurs as several edges", {"c": c0, "p": p}); continue
+            for a, b in exp:
+                if not gr.has_edge(Qubit(a), Qubit(b)) or not gr.has_edge(Qubit(b), Qubit(a)):
+                    run.violation(f"after map: has_edge(Qubit({a}), Qubit({b})) is False for an existing interaction", {"c": c0, "p": p}); break
+        except Exception as ex:
+            run.violation(f"interaction graph of a mapped circuit raised {O.err_name(ex)}", {"c": c0, "p": p})
+
 # ----------------------------------------------------------------------------------------- C17
 PIPE_POOL = None
 def pipeline_pool():
@@ -761,6 +829,9 @@ def snapshot_globals():
     return snap
 
 def check_C17(run: Run):
+    redefinition_check(run, False)
+    from shared import snapshot_independence
+    snapshot_independence(run)
     rng = random.Random(run.seed * 113 + 127)
     pool = pipeline_pool()
     ref = {}
@@ -891,13 +962,21 @@ def check_C19(run: Run):
                 if it % 6 in (0, 1, 5):      # two-qubit gates between the lowest and the highest placed qubit
                     import opensquirrel.default_gates as _dg
                     base["stmts"].append(W.w_stmt(_dg.CNOT(0, k - 1))); base["stmts"].append(W.w_stmt(_dg.CZ(k - 1, 0)))
-                place = ["spread", "random", "low", "high"][it % 4]
+                place = ["spread", "random", "low", "high", "digits"][it % 5]
                 idx = list(range(k)) if place == "low" else list(range(reg - k, reg)) if place == "high" else \
                     ([0] + sorted(rng.sample(range(1, reg - 1), k - 2)) + [reg - 1]) if place == "spread" else sorted(rng.sample(range(reg), k))
+                if place == "digits":
+                    # indices whose decimal spellings have different lengths (3, 12, 101, ...), and a rotation pending on every
+                    # qubit at the end of the circuit: whatever orders the final flush must order by index
+                    idx = sorted({rng.randint(2, 9), rng.randint(10, min(99, reg - 1)), reg - 1, rng.randint(10, reg - 2)})[:k]
+                    while len(idx) < k: idx = sorted(set(idx) | {rng.randrange(reg)})
+                    import opensquirrel.default_gates as _dg
+                    base["stmts"] += [W.w_stmt(_dg.H(q_)) for q_ in range(k)] + [W.w_stmt(_dg.T(q_)) for q_ in reversed(range(k))]
                 big = {"nq": reg, "nb": base["nb"], "stmts": [spec_map_stmt(s, {i: idx[i] for i in range(k)}) for s in base["stmts"]]}
                 seq = [rng.choice([p for p in al if p[0] != "writeparse"]) for _ in range(rng.randint(1, 3))]
                 forced = [("decompose", "CNOT"), ("replace", "CNOT"), ("map", "cycle"), ("merge",), ("decompose", "ZYZ"), ("replace", "CZ")]
                 seq = [forced[it % len(forced)]] + seq[:2]
+                if place == "digits": seq = [("merge",)] + seq[:1]
                 run.count({"reg": reg, "base": base, "seq": seq, "idx": idx}, tag=f"reg{reg}")
                 sizes.clear()
                 t0 = time.time()
